@@ -160,6 +160,10 @@ func (c10) Exec(ctx *core.Ctx, cs *core.Case) {
 				if r < 0x100 && s.impl.ByteShouldBeEncoded(byte(r)) != want {
 					ctx.Violate("byte membership differs from the standard", fmt.Sprintf("%s: byte 0x%02X in set = %v", s.name, r, want), !want, "")
 				}
+				if r <= 0x7E && s.impl.RuneNotInSet(r) == want {
+					// the complement query; above U+007E it is not a membership test (the encoder asks it about raw bytes)
+					ctx.Violate("RuneNotInSet disagrees with the standard's set", fmt.Sprintf("%s: U+%04X in set = %v", s.name, r, want), want, "")
+				}
 				ctx.NontrivialKey(fmt.Sprintf("m/%d/%d", i, r))
 			}
 		}
